@@ -136,13 +136,98 @@ def narrow(s, rng):
     if k == "seq":
         if rng.random() < 0.1 and s[2]:
             return ["generic", "tuple", [narrow(s[2][0][1], rng)]]
-        return ["seq", s[1], [[f, narrow(x, rng)] for f, x in s[2]]]
+        ms = [[f, narrow(x, rng)] for f, x in s[2]]
+        r2 = rng.random()
+        if r2 < 0.08 and ms:
+            ms = ms[:-1]  # one member fewer (down to tuple[()])
+        elif r2 < 0.16:
+            ms = ms + [[False, gen_static(rng, 1)]]  # one member more
+        return ["seq", s[1], ms]
     if k == "annot":
         return narrow(s[1], rng) if rng.random() < 0.5 else ["annot", narrow(s[1], rng), s[2]]
     if k == "subclass":
         sub = ["typed", rng.choice([x for x in SUBS.get(s[1][1], [s[1][1]]) if x != "LiteralString"])] if s[1][0] == "typed" else s[1]
         return ["subclass", sub, False] if rng.random() < 0.6 else ["known", ["class", rng.choice(["int", "bool", "A", "B", "str"])]]
     return s
+
+
+def _hashable_spec(s):
+    try:
+        hash(G.build_obj(s, {}))
+        return True
+    except TypeError:
+        return False
+
+
+def gen_member(rng, s, depth=3):
+    """an object spec that is, by construction, (very likely) a member of the static value s;
+    None when no member is known (Never, uninhabited shapes).  Used to derive the soundness
+    pool from the generated types, so every accepted pair is tested against objects of B."""
+    k = s[0]
+    lab = 7000 + rng.randrange(1000)
+    if k == "typed":
+        c = s[1]
+        if c in LITS_OF:
+            return rng.choice(LITS_OF[c])
+        return {"list": ["list", lab, []], "tuple": ["tuple", lab, [["int", 1]]], "dict": ["dict", lab, []], "set": ["set", lab, []],
+                "frozenset": ["frozenset", []]}.get(c)
+    if k == "literalstring":
+        return ["str", "a"]
+    if k == "known":
+        return s[1]
+    if k == "newtype":
+        return ["int", 1]
+    if k == "any":
+        return rng.choice([["int", 1], ["str", "a"], ["none"]])
+    if k in ("unite", "union"):
+        alts = [x for x in s[1]]
+        rng.shuffle(alts)
+        for x in alts:
+            m = gen_member(rng, x, depth)
+            if m is not None:
+                return m
+        return None
+    if k == "annot":
+        return gen_member(rng, s[1], depth)
+    if k == "subclass":
+        inner = s[1]
+        if inner[0] == "typed" and inner[1] in ("int", "float", "bool", "str", "A", "B", "C", "object", "complex"):
+            return ["class", rng.choice({"int": ["int", "bool"], "float": ["float"], "A": ["A", "B"], "object": ["int", "A", "str"],
+                                         "complex": ["complex"]}.get(inner[1], [inner[1]]))]
+        return None
+    if depth <= 0:
+        return None
+    if k == "generic":
+        c, args = s[1], s[2]
+        n = rng.randrange(0, 3)
+        if c in ("dict", "Mapping"):
+            kvs = []
+            for _ in range(n):
+                kk, vv = gen_member(rng, args[0], depth - 1), gen_member(rng, args[1], depth - 1)
+                if kk is None or vv is None or not _hashable_spec(kk):
+                    continue
+                kvs.append([kk, vv])
+            keys = G._distinct([kv[0] for kv in kvs])
+            return ["dict", lab, [kv for kv in kvs if kv[0] in keys][: len(keys)]] if len(keys) == len(kvs) else ["dict", lab, []]
+        els = [gen_member(rng, args[0], depth - 1) for _ in range(n)]
+        els = [e for e in els if e is not None]
+        kind = {"list": ["list"], "set": ["set"], "frozenset": ["frozenset"], "tuple": ["tuple"], "Sequence": ["list", "tuple"],
+                "Iterable": ["list", "set", "tuple"], "Collection": ["list", "tuple"]}[c]
+        kind = rng.choice(kind)
+        if kind in ("set", "frozenset"):
+            els = G._distinct([e for e in els if _hashable_spec(e)])
+            return ["frozenset", els] if kind == "frozenset" else ["set", lab, els]
+        return [kind, lab, els]
+    if k == "seq":
+        els = []
+        for many, x in s[2]:
+            for _ in range(rng.randrange(0, 3) if many else 1):
+                m = gen_member(rng, x, depth - 1)
+                if m is None:
+                    return None
+                els.append(m)
+        return ["tuple", lab, els]
+    return None
 
 
 def load_corpus():
@@ -211,8 +296,24 @@ def run(tier: str, replay: str | None = None):
         bc = V.unite_values(B, C)
         laws["union_right_iff_all"] = acc(A, bc) == (obs["ab"] and obs["ac"])
         laws["union_left_if_some"] = (not obs["ab"]) or acc(V.unite_values(A, C), B)
-        rows.append({"case": case, "obs": obs, "laws": laws, "anyfree": anyfree,
-                     "term": f"c04_run table {show(ta)} {show(tb)} {show(tc)} pool"})
+        # objects derived from B (and a few from A and C): members by construction
+        extra = case.get("extra_pool")
+        if extra is None:
+            erng = random.Random(__import__("zlib").crc32(json.dumps(case, sort_keys=True).encode()))
+            extra = []
+            for src, cnt in ((case["b"], 5), (case["a"], 2), (case["c"], 1)):
+                for _ in range(cnt):
+                    m = gen_member(erng, src)
+                    if m is not None:
+                        extra.append(m)
+            extra = G.fix_labels(extra)
+        ecx = Ctx()
+        try:
+            extra_terms = [show(enc_obj(G.build_obj(e, {}), ecx)) for e in extra]
+        except (OutOfFragment, TypeError):
+            extra, extra_terms = [], []
+        rows.append({"case": case, "obs": obs, "laws": laws, "anyfree": anyfree, "extra": extra,
+                     "term": f"c04_run table {show(ta)} {show(tb)} {show(tc)} (pool ++ [" + "; ".join(extra_terms) + "])"})
         hist["accept" if obs["ab"] else "reject"] += 1
         hist["kinds_a"][case["a"][0]] = hist["kinds_a"].get(case["a"][0], 0) + 1
         hist["kinds_b"][case["b"][0]] = hist["kinds_b"].get(case["b"][0], 0) + 1
@@ -232,6 +333,7 @@ def run(tier: str, replay: str | None = None):
 
     findings = {f["id"]: f for f in lib.load_known_findings(PROP)["findings"]}
     failing, corr, validated, distinct, n_sound_checked, lenient = [], [], 0, set(), 0, 0
+    n_b_members = n_b_without_member = 0
     for r in rows:
         bad = [k for k, v in r["laws"].items() if not v]
         witness = None
@@ -244,10 +346,13 @@ def run(tier: str, replay: str | None = None):
             distinct.add(json.dumps(r["case"], sort_keys=True))
             if r["obs"]["ab"] and not r["clauses"]["has_any"]:
                 n_sound_checked += 1
+                specs = POOL + r["extra"]
                 for i, (ia, ib) in enumerate(zip(r["member_a"], r["member_b"])):
                     if ib and not ia:
-                        witness = POOL[i]
+                        witness = specs[i]
                         break
+                n_b_members += sum(1 for x in r["member_b"] if x)
+                n_b_without_member += not any(r["member_b"])
                 if witness is not None:
                     if r["clauses"]["bare_generic"] or r["clauses"]["variadic_into_fixed"]:
                         lenient += 1  # the leniencies the property excludes
@@ -290,10 +395,12 @@ def run(tier: str, replay: str | None = None):
         rule="a case = (A, B, C) of static values up to depth 3-4 (classes, literals incl. containers, NewType, unions, Annotated, type[...], "
         "generics over 9 classes, fixed tuples, rarely unpacked members, Any in 20%% of the cases); B is a narrowing of A in 55%% of the cases; "
         "5 verdicts per case (A<-B, A<-B exclude-Any, A<-C, A<-A both modes) are compared model vs implementation; 7 laws are evaluated on the "
-        "real code; soundness is checked for every accepted Any-free pair against a pool of %d objects" % len(POOL),
+        "real code; soundness is checked for every accepted Any-free pair against a fixed pool of %d objects plus up to 8 objects derived "
+        "structurally from B, A and C (members by construction)" % len(POOL),
         samples=[r["case"] for r in rows[:3]],
         traces_validated_against_impl=validated,
-        input_distribution={**hist, "soundness_pairs_checked": n_sound_checked, "lenient_pairs_excluded": lenient, "out_of_fragment": oof, "cases": len(cases)},
+        input_distribution={**hist, "soundness_pairs_checked": n_sound_checked, "objects_of_B_tested": n_b_members,
+                            "accepted_pairs_with_no_known_object_of_B": n_b_without_member, "lenient_pairs_excluded": lenient, "out_of_fragment": oof, "cases": len(cases)},
         correspondence_mismatches=len(corr),
         oracle_failures_unattributed=len(failing),
     )
